@@ -86,7 +86,7 @@ fn after_rejection_sweep(ctx: &Ctx, cfg: &Config, sender: Side, label: &str) {
     let mut pre = sess::handshake_ops(&proto, &[0, 0, 0, 0]);
     pre.extend(sess::convert_ops(Mode::TT));
     for j in 0..K {
-        pre.push(Op::TWrite { side: sender, plen: [3usize, 40, 4, 17][j % 4], cap: Cap::Roomy });
+        pre.push(Op::TWrite { side: sender, plen: [3usize, 0, 40, 17][j % 4], cap: Cap::Roomy });
     }
     let wire = |j: usize| Msg::Wire(sender, hs_written + j);
     let fails_for = |j: usize| -> Vec<Vec<Op>> {
